@@ -25,6 +25,15 @@
   * Lists and maps carry identities (Model/Value.lean); fresh ones are drawn from `next`.
   * Output: the list of chunks handed to the current writer, newest first (one chunk per Write call).
   * Fuel bounds the template call depth only (Go: the goroutine stack); everything else is structural.
+
+  OUTSIDE THE MODEL: a {template} tag written INSIDE a template body (the parser accepts it; the registry does
+  not register it).  Go walks the nested body in the current frame with the mode "the tag's autoescape
+  attribute, else the enclosing mode" and restores the enclosing mode afterwards (exec.go `walk`, TemplateNode;
+  /repo a6ffafc).  `execCmd` answers `error` for such a node (the mode flag is a fixed parameter of the model's
+  walk), so every theorem about the model holds vacuously for bodies that contain one.  The construct is
+  covered on the real code only, by oracles: C03 `nested-template-switches-escaping-off` and the C02exec
+  family `nested-template-tag(impl-only)` (not sent to the model; the output the property demands is
+  compared with the implementation's).
 -/
 import SoyVerif.Model.Ast
 import SoyVerif.Model.Value
